@@ -27,7 +27,7 @@ class NormalPrior(Prior, Normal):
 
     def expand(self, batch_shape):
         batch_shape = torch.Size(batch_shape)
-        return NormalPrior(self.loc.expand(batch_shape), self.scale.expand(batch_shape))
+        return NormalPrior(self.loc.expand(batch_shape), self.scale.expand(batch_shape), transform=self._transform)
 
 
 class HalfNormalPrior(Prior, HalfNormal):
@@ -44,7 +44,7 @@ class HalfNormalPrior(Prior, HalfNormal):
         self._transform = transform
 
     def expand(self, batch_shape):
-        return HalfNormal(self.scale.expand(batch_shape))
+        return HalfNormalPrior(self.scale.expand(batch_shape), transform=self._transform)
 
 
 class LogNormalPrior(Prior, LogNormal):
@@ -60,7 +60,7 @@ class LogNormalPrior(Prior, LogNormal):
 
     def expand(self, batch_shape):
         batch_shape = torch.Size(batch_shape)
-        return LogNormalPrior(self.loc.expand(batch_shape), self.scale.expand(batch_shape))
+        return LogNormalPrior(self.loc.expand(batch_shape), self.scale.expand(batch_shape), transform=self._transform)
 
 
 class UniformPrior(Prior, Uniform):
@@ -75,7 +75,7 @@ class UniformPrior(Prior, Uniform):
 
     def expand(self, batch_shape):
         batch_shape = torch.Size(batch_shape)
-        return UniformPrior(self.low.expand(batch_shape), self.high.expand(batch_shape))
+        return UniformPrior(self.low.expand(batch_shape), self.high.expand(batch_shape), transform=self._transform)
 
 
 class HalfCauchyPrior(Prior, HalfCauchy):
@@ -90,7 +90,7 @@ class HalfCauchyPrior(Prior, HalfCauchy):
         self._transform = transform
 
     def expand(self, batch_shape):
-        return HalfCauchyPrior(self.scale.expand(batch_shape))
+        return HalfCauchyPrior(self.scale.expand(batch_shape), transform=self._transform)
 
 
 class GammaPrior(Prior, Gamma):
@@ -109,7 +109,7 @@ class GammaPrior(Prior, Gamma):
 
     def expand(self, batch_shape):
         batch_shape = torch.Size(batch_shape)
-        return GammaPrior(self.concentration.expand(batch_shape), self.rate.expand(batch_shape))
+        return GammaPrior(self.concentration.expand(batch_shape), self.rate.expand(batch_shape), transform=self._transform)
 
     def __call__(self, *args, **kwargs):
         return super(Gamma, self).__call__(*args, **kwargs)
@@ -156,4 +156,4 @@ class MultivariateNormalPrior(Prior, MultivariateNormal):
         new_loc = self.loc.expand(batch_shape)
         new_scale_tril = self.scale_tril.expand(cov_shape)
 
-        return MultivariateNormalPrior(loc=new_loc, scale_tril=new_scale_tril)
+        return MultivariateNormalPrior(loc=new_loc, scale_tril=new_scale_tril, transform=self._transform)
